@@ -4,6 +4,10 @@
 //
 //	<tree>: comma-separated f:<path> (regular file) / d:<path> (directory), "-" = empty tree
 //	<pattern>: the dependency string of the only task of the spokfile
+//	optional, after the pattern:  R <hex>  the name of the project directory (default "r"; names with glob
+//	meta-characters must not matter: the pattern is relative to the directory, never part of it);
+//	L <path,…>  entries of the tree that are realised as symbolic links to a copy kept OUTSIDE the project
+//	(a linked directory is traversed like any directory, a linked file is a file: the model sees only paths)
 //
 // observation:  OBS <e…> ; OBS2 <e…> ; OBSB <e…> ; SEQ <e…>|na ; SET <e…> ; LEG <e…>|na|err
 //
@@ -90,7 +94,7 @@ func tag(root string, abs []string) []string {
 		}
 		rel = filepath.ToSlash(rel)
 		k := "f:"
-		if fi, err := os.Lstat(a); err != nil {
+		if fi, err := os.Stat(a); err != nil { // links are followed: a linked directory is a directory
 			k = "?:"
 		} else if fi.IsDir() {
 			k = "d:"
@@ -115,17 +119,36 @@ func newSpokFile(root, pattern string) (*file.SpokFile, string) {
 
 func globWork(c string) string {
 	f := strings.Fields(c)
-	if len(f) != 4 || f[0] != "T" || f[2] != "P" {
+	if len(f) < 4 || len(f)%2 != 0 || f[0] != "T" || f[2] != "P" {
 		return "BAD-CASE"
 	}
 	pattern := f[3]
+	rootName := "r"
+	var links []string
+	for i := 4; i+1 < len(f); i += 2 {
+		switch f[i] {
+		case "R":
+			n, ok := sup.Unhx(f[i+1])
+			if !ok || n == "" || strings.ContainsAny(n, "/\x00") {
+				return "BAD-CASE"
+			}
+			rootName = n
+		case "L":
+			links = strings.Split(f[i+1], ",")
+		default:
+			return "BAD-CASE"
+		}
+	}
 	b := ensureBase()
-	root := filepath.Join(b, "r")
+	root := filepath.Join(b, rootName)
+	ext := filepath.Join(b, "outside")
 	_ = os.RemoveAll(root)
+	_ = os.RemoveAll(ext)
 	if err := os.Mkdir(root, 0o755); err != nil {
 		return "BAD-SETUP " + sup.Hx(err.Error())
 	}
 	defer os.RemoveAll(root)
+	defer os.RemoveAll(ext)
 	if f[1] != "-" {
 		for _, e := range strings.Split(f[1], ",") {
 			if len(e) < 3 {
@@ -146,6 +169,23 @@ func globWork(c string) string {
 			if err != nil {
 				return "BAD-SETUP " + sup.Hx(err.Error())
 			}
+		}
+	}
+
+	for i, l := range links {
+		p := filepath.Join(root, filepath.FromSlash(l))
+		if _, err := os.Lstat(p); err != nil {
+			return "BAD-CASE"
+		}
+		target := filepath.Join(ext, fmt.Sprintf("t%d", i))
+		if err := os.MkdirAll(ext, 0o755); err != nil {
+			return "BAD-SETUP " + sup.Hx(err.Error())
+		}
+		if err := os.Rename(p, target); err != nil {
+			return "BAD-SETUP " + sup.Hx(err.Error())
+		}
+		if err := os.Symlink(target, p); err != nil {
+			return "BAD-SETUP " + sup.Hx(err.Error())
 		}
 	}
 
@@ -201,6 +241,8 @@ func legacyWalk(root, pattern string) string {
 		k := "f:"
 		if d.IsDir() {
 			k = "d:"
+		} else if fi, err := os.Stat(filepath.Join(root, filepath.FromSlash(p))); err == nil && fi.IsDir() {
+			k = "d:" // a linked directory: the DirEntry is the link's, the entry is a directory
 		}
 		rec = append(rec, k+p)
 		return nil
@@ -323,6 +365,48 @@ func randSeg(rng *rand.Rand) string {
 	}
 }
 
+var rootNames = []string{"proj[1]", "rel{ease}", "a*b", "q?x", "back\\slash", "sp ace", "[ab]", "{a,b}", "**", ".hidden", "ünï", "r-1.0"}
+
+// randExtras: now and then an unusual project directory name and/or some entries behind symbolic links
+func randExtras(rng *rand.Rand, tr string) string {
+	out := ""
+	if rng.Intn(4) == 0 {
+		out += " R " + sup.Hx(rootNames[rng.Intn(len(rootNames))])
+	}
+	if tr != "-" && rng.Intn(3) == 0 {
+		// candidates: every entry and every directory above one; linked entries must not be nested in one another
+		seen := map[string]bool{}
+		var cands []string
+		for _, e := range strings.Split(tr, ",") {
+			parts := strings.Split(e[2:], "/")
+			for j := 1; j <= len(parts); j++ {
+				p := strings.Join(parts[:j], "/")
+				if !seen[p] {
+					seen[p] = true
+					cands = append(cands, p)
+				}
+			}
+		}
+		var ls []string
+		for k := 1 + rng.Intn(2); k > 0; k-- {
+			c := cands[rng.Intn(len(cands))]
+			ok := true
+			for _, l := range ls {
+				if l == c || strings.HasPrefix(l, c+"/") || strings.HasPrefix(c, l+"/") {
+					ok = false
+				}
+			}
+			if ok {
+				ls = append(ls, c)
+			}
+		}
+		if len(ls) > 0 {
+			out += " L " + strings.Join(ls, ",")
+		}
+	}
+	return out
+}
+
 func randPattern(rng *rand.Rand) string {
 	for tries := 0; ; tries++ {
 		k := 1 + rng.Intn(4)
@@ -353,7 +437,18 @@ func globGen(w *bufio.Writer, args map[string]string) {
 		tr := randTree(rng)
 		// a few patterns per random tree
 		for j := 0; j < 2; j++ {
-			fmt.Fprintf(w, "T %s P %s\n", tr, randPattern(rng))
+			fmt.Fprintf(w, "T %s P %s%s\n", tr, randPattern(rng), randExtras(rng, tr))
+		}
+	}
+	// the fixed pool again under unusual project directory names and with every entry of a small tree linked in turn
+	for _, rn := range rootNames {
+		for _, p := range patterns {
+			fmt.Fprintf(w, "T f:main.x,f:sub/a.x,f:sub/deep/b.x,f:.h.x,d:sub/empty P %s R %s\n", p, sup.Hx(rn))
+		}
+	}
+	for _, l := range []string{"sub", "sub/deep", "main.x", "sub/a.x", "sub/empty", "sub,main.x", ".hid"} {
+		for _, p := range patterns {
+			fmt.Fprintf(w, "T f:main.x,f:sub/a.x,f:sub/deep/b.x,f:.h.x,d:sub/empty,f:.hid/c.x P %s L %s\n", p, l)
 		}
 	}
 }
